@@ -29,6 +29,35 @@ fn gen(rng: &mut Rng, _i: u64) -> String {
 		return format!("codec key={} v0={} v1={} build={} product={} count={}", key, rng.next() as u32, rng.next() as u32, rng.next() as u16, rng.next() as u16,
 			match rng.below(4) { 0 => 0, 1 => 0xFFFF_FFFF, _ => rng.next() as u32 });
 	}
+	// ---- small e_lfanew: the NT headers overlap the DOS header.  PeFile::from_bytes accepts every multiple of 4 from 0x10 on
+	// for which the e_lfanew field falls on a header field that is not validated (0x24 would put it on the optional header
+	// magic, 0x3c on the PE signature); rich_structure() then sees fewer than 16 dwords and must answer Invalid at the first
+	// test of its padding loop (`end < 16`), before `image[end - 1]`, `image[end - 2]` or `end - 6` are evaluated.
+	if rng.chance(1, 10) {
+		let el = *rng.pick(&[0x10u32, 0x14, 0x18, 0x1c, 0x20, 0x28, 0x2c, 0x30, 0x34, 0x38]);
+		let spec = ImgSpec { pe64: true, e_lfanew: el, soh: 0, soi: 0x1000, image_base: 0x1_4000_0000, nrva: 0, dirs: vec![], opt_size: 112, nsec_field: 0, secs: vec![], checksum: 0, magic: 0x20b };
+		let mut bytes = spec.header_bytes();
+		// the header writer wrote e_lfanew first and the NT fields over it: write it again (Machine / SizeOfOptionalHeader /
+		// a size field now holds the value, none of which validate_headers rejects with no sections)
+		bytes[60..64].copy_from_slice(&el.to_le_bytes());
+		let n = (el / 4) as usize;
+		// what the dword scan would look at if the guard were missing: non-zero dwords, sometimes a Rich marker and key in
+		// the last two dwords and a DanS header before them
+		let key = rng.next() as u32 | 1;
+		let style = rng.below(4);
+		for i in 1..n {
+			let w: u32 = match style {
+				0 => 0,
+				1 if i == n - 2 => RICH,
+				1 if i == n - 1 => key,
+				1 if i + 6 == n => DANS ^ key,
+				1 if i + 6 > n && i + 2 < n => key,
+				_ => rng.next() as u32 | 0x100,
+			};
+			bytes[4 * i..4 * i + 4].copy_from_slice(&w.to_le_bytes());
+		}
+		return format!("rich img={} expect=any key=0 nstub=0 recs=- extra=0", hex(&bytes));
+	}
 	// ---- DOS area
 	let stub_len = match rng.below(6) { 0 => 16, 1 => 17, 2 => 32, 3 => 64, _ => rng.range(16, 70) } as usize;
 	let mut stub: Vec<u32> = (0..stub_len).map(|_| if rng.chance(1, 4) { 0 } else { rng.next() as u32 }).collect();
